@@ -464,6 +464,28 @@ func (c *Ctx) Eq(a, b *Term) *Term {
 	if a.IsConst() && b.Op == "ite" && (b.Args[1].IsConst() || b.Args[2].IsConst()) {
 		return c.Ite(b.Args[0], c.Eq(a, b.Args[1]), c.Eq(a, b.Args[2]))
 	}
+	// zero_extend(x) == K  <=>  x == K' (K fits) or false; same for sign_extend
+	for k := 0; k < 2; k++ {
+		x, y := a, b
+		if k == 1 {
+			x, y = b, a
+		}
+		if y.IsConst() && (x.Op == "zero_extend" || x.Op == "sign_extend") {
+			in := x.Args[0]
+			w := in.Sort.Width
+			low := new(big.Int).Mod(y.Val, two(w))
+			var back *Term
+			if x.Op == "zero_extend" {
+				back = c.BVBig(x.Sort.Width, low)
+			} else {
+				back = c.BVBig(x.Sort.Width, toSigned(low, w))
+			}
+			if back.Val.Cmp(y.Val) != 0 {
+				return c.False()
+			}
+			return c.Eq(in, c.BVBig(w, low))
+		}
+	}
 	if a.ID > b.ID {
 		a, b = b, a
 	}
@@ -941,6 +963,17 @@ func (c *Ctx) Select(arr, i *Term) *Term {
 	}
 	if arr.Op == "ite" && (arr.Args[1].Op == "store" || arr.Args[2].Op == "store" || arr.Args[1].Op == "constarr" || arr.Args[2].Op == "constarr") {
 		return c.Ite(arr.Args[0], c.Select(arr.Args[1], i), c.Select(arr.Args[2], i))
+	}
+	if arr.Op == "store" {
+		// read-over-write with an index that is neither syntactically equal nor provably distinct:
+		// expand (short chains only) so that implementation and specification terms normalise alike
+		depth := 0
+		for a := arr; a.Op == "store"; a = a.Args[0] {
+			depth++
+		}
+		if depth <= 12 {
+			return c.Ite(c.Eq(arr.Args[1], i), arr.Args[2], c.Select(arr.Args[0], i))
+		}
 	}
 	return c.mk(&Term{Op: "select", Args: []*Term{arr, i}, Sort: arr.Sort.Elem})
 }
